@@ -123,6 +123,7 @@ type IDPConf struct {
 	Base          string `json:"base"`               // e.g. https://idp.example.com
 	KeyName       string `json:"key_name,omitempty"` // fixture; "" = idp
 	Signer        bool   `json:"signer,omitempty"`   // use an opaque crypto.Signer instead of Key
+	StaleKey      bool   `json:"stale_key,omitempty"` // with Signer: Key is ALSO set, to another (stale) private key; the Signer, whose public key the certificate carries, is what must be used
 	SigMethod     string `json:"sig_method,omitempty"`
 	Intermediates int    `json:"intermediates,omitempty"`
 }
@@ -165,6 +166,9 @@ func (c IDPConf) Build(reg saml.ServiceProviderProvider, sess saml.SessionProvid
 	}
 	if c.Signer {
 		idp.Signer = OpaqueSigner{kp.Key}
+		if c.StaleKey {
+			idp.Key = fix.Get("idp2").Key
+		}
 	} else {
 		idp.Key = kp.Key
 	}
